@@ -238,3 +238,18 @@ PROPS['C17'] = dict(
     min_stats={'cases': 15},
     assumptions=['the settlement of the consumed copy is sampled inside the scripted destination publisher', 'retries counters used are single digits (ToNat in Relay.tla)'],
 )
+
+PROPS['C16'] = dict(
+    level='exploration',
+    design=[D('MCValues', 'MCValues.cfg')],
+    traces={'ValuesTrace': dict(module='ValuesTrace', cfg='ValuesTrace.cfg', timeout=1800, heap='12g')},
+    rule='runs = (1) every sequence of length 3 (4 in thorough) over {New (incl. zero-value messages with nil metadata), Copy, metadata writes} on 3 cells with the heap and all pairwise '
+         'Equals results observed after each step, (2) pairs of messages differing in exactly one component (UUID, payload, one value, one key with an empty value, an extra key) for all '
+         'combinations of string classes {empty, ascii, control/quote/U+2028, multi-byte} and payload classes {nil, empty, 0x00, 0xff, ascii, random <= 4 KiB}, (3) codec round trips '
+         '(forwarder envelope through Publisher + running Forwarder, JSON / Protobuf / gogo CQRS marshalers, request-reply reply marshaler); each class is replayed with its '
+         'representative and with N seeded random members (N = 3 quick, 50 thorough); distinct = distinct run key; non-trivial = every run',
+    exhaustive=False,
+    min_stats={'heap_sequences': 1000, 'one_component_pairs': 1000, 'round_trips': 1000},
+    assumptions=['input space is sampled per equivalence class: exploration, not proof; encoding/json, protobuf and base64 are trusted beyond the sampled inputs',
+                 'JSON cannot distinguish nil from empty byte slices; values are compared up to that'],
+)
